@@ -11,7 +11,7 @@ LEVEL = 'model_checking'
 TECHNIQUE = ('symbolic execution of the rustc MIR of swap_manager::swap into integer SMT (z3 5.1): Floyd cut-point verification at the swap '
              'loop header (base case from the entry, inductive step from a symbolic mid-loop state), every callee replaced by a contract '
              'that is proved elsewhere (compute_swap: C02; tick search: C10; tick<->price: C09); plus bounded unrolling from the entry')
-FUNCTIONS = ['manager::swap_manager::swap', 'manager::swap_manager::calculate_fees', 'manager::swap_manager::get_next_sqrt_prices',
+FUNCTIONS = ['instructions::swap::handler', 'instructions::v2::swap::handler', 'instructions::two_hop_swap::handler', 'instructions::v2::two_hop_swap::handler', 'manager::swap_manager::swap', 'manager::swap_manager::calculate_fees', 'manager::swap_manager::get_next_sqrt_prices',
              'manager::fee_rate_manager::FeeRateManager::{new, update_volatility_accumulator, get_total_fee_rate, get_bounded_sqrt_price_target, '
              'advance_tick_group, advance_tick_group_after_skip, update_major_swap_timestamp, get_next_adaptive_fee_info} (Static variant)']
 BOUNDS = ['loop invariant: one arbitrary outer iteration from an arbitrary invariant-satisfying state (covers any number of crossings)',
@@ -508,6 +508,10 @@ def run(ctx):
         for a_to_b in (True, False):
             for lm in ('explicit', 'none'):
                 tasks.append(config_task(exact_in, a_to_b, lm, 0))
+    # (ii) handler glue: thresholds and pass-through of the trader's arguments, v1 and v2, single and two-hop (handler mode, shared with C17)
+    from props import c17
+    tasks += [('handler:single', c17.single_task(False)), ('handler:single_v2', c17.single_task(True)),
+              ('handler:two_hop', c17.two_hop_task(False)), ('handler:two_hop_v2', c17.two_hop_task(True))]
     ctx.parallel(tasks, max_procs=8)
     ctx.run_kani(['c03.rs'])
 
